@@ -476,4 +476,159 @@ example : (fun c : Content => if c = "abcd" then some (tarEntry exExp) else none
 example : (tarStore (some "OLD") ["ab", "cd"] none).2.final = some "abcd" := by decide
 example : tarStore (some "OLD") ["ab", "cd"] (some 2) = (true, { final := some "OLD", temp := none }) := by decide
 
+/-! ### The lock hypothesis made explicit: what breaks when the lock is handed out twice
+
+  Everything above that speaks about writers (`Inv`, `marker_implies_complete`, `writers_exclusive`,
+  `complete_is_stable`, `entry_changes_only_under_lock`, …) rests on ONE fact about the lock file:
+  `acquire` is enabled only when nobody holds the lock (`s.lock = none` in `step`).  For
+  `filelock.lockForFunc` as coded this is: a Lock call on a held lock times out, the caller gets an
+  error and does nothing — the disabled `acquire` (a no-op).  The stored regression C09-m9
+  ("abandoned lock recovery": after the timeout a lock file older than an hour is unlinked and the
+  lock taken on the NEW inode) grants the lock although it is held.  This section names the
+  assumption, restates preservation with it as a hypothesis, and shows that it is necessary. -/
+
+/-- How a Lock call answers when the lock is HELD by a live process. -/
+inductive LockRule where
+  /-- as coded: the call times out, the store returns the lock error, nothing is written -/
+  | asCoded
+  /-- seed C09-m9: the waiter unlinks the holder's lock file and locks a new inode: granted -/
+  | abandonedRecovery
+  deriving DecidableEq, Repr
+
+/-- The lock handed out without looking at who holds it: `acquire` minus its `lock = none` test
+    (the marker re-check under the "lock" is still made). -/
+def stealLock (_exp : Expected) (s : Sys) (w : Nat) : Sys :=
+  match s.writers[w]? with
+  | some .start =>
+    if markerOK s.entry then { s with writers := setPc s.writers w (.finished true) }
+    else if markerGarbled s.entry then { s with writers := setPc s.writers w (.finished false) }
+    else { s with lock := some w, writers := setPc s.writers w (.writing [] []) }
+  | _ => s
+
+/-- Writer `w` asks for the exclusive lock under a rule. -/
+def acquireWith : LockRule → Expected → Sys → Nat → Sys
+  | .asCoded, exp, s, w => step exp s (.acquire w)
+  | .abandonedRecovery, exp, s, w => stealLock exp s w
+
+/-- Histories in which the lock may also be stolen. -/
+inductive XAct where
+  | act (a : Act)
+  | steal (w : Nat)
+  deriving Repr
+
+def xstep (exp : Expected) (s : Sys) : XAct → Sys
+  | .act a => step exp s a
+  | .steal w => stealLock exp s w
+
+def xrun (exp : Expected) (s : Sys) (xs : List XAct) : Sys := xs.foldl (xstep exp) s
+
+/-- "flock gives mutual exclusion", as a property of a history: whenever the lock is handed out
+    by `steal`, nobody holds it at that moment. -/
+def LockRespected (exp : Expected) : Sys → List XAct → Prop
+  | _, .nil => True
+  | s, x :: rest => (∀ w, x = .steal w → s.lock = none) ∧ LockRespected exp (xstep exp s x) rest
+
+/-- The two rules differ ONLY when the lock is held: on a free lock the steal is the coded acquire. -/
+theorem steal_is_acquire_when_free (exp : Expected) (s : Sys) (w : Nat) (h : s.lock = none) :
+    stealLock exp s w = step exp s (.acquire w) := by
+  unfold stealLock
+  simp only [step, h]
+  cases hw : s.writers[w]? with
+  | none => rfl
+  | some pc => cases pc <;> rfl
+
+/-- As coded, a waiter that meets a held lock does not proceed: its store changes nothing (harness:
+    a contender of a live holder issues no primitive and its Lock call reports an error). -/
+theorem timed_out_waiter_does_nothing (exp : Expected) (s : Sys) (w h : Nat) (hl : s.lock = some h) :
+    acquireWith .asCoded exp s w = s := by
+  simp only [acquireWith, step, hl]
+  cases s.writers[w]? with
+  | none => rfl
+  | some pc => cases pc <;> rfl
+
+/-- no_steal_preserves: the invariant behind every writer theorem is preserved along any history —
+    crashes, failures, any interleaving — PROVIDED the lock is respected (`LockRespected`: the
+    flock assumption, now a named hypothesis).  Histories of plain `Act`s (the real model) satisfy
+    it trivially, see `plain_history_respects_lock`. -/
+theorem no_steal_preserves {exp : Expected} (wf : WF exp) (xs : List XAct) (s : Sys) (inv : Inv exp s)
+    (h : LockRespected exp s xs) : Inv exp (xrun exp s xs) := by
+  induction xs generalizing s with
+  | nil => exact inv
+  | cons x rest ih =>
+    obtain ⟨h1, h2⟩ := h
+    refine ih (xstep exp s x) ?_ h2
+    cases x with
+    | act a => exact step_inv wf s inv a
+    | steal w =>
+      simp only [xstep]
+      rw [steal_is_acquire_when_free exp s w (h1 w rfl)]
+      exact step_inv wf s inv (.acquire w)
+
+theorem plain_history_respects_lock (exp : Expected) (acts : List Act) (s : Sys) :
+    LockRespected exp s (acts.map XAct.act) ∧ xrun exp s (acts.map XAct.act) = runActs exp s acts := by
+  induction acts generalizing s with
+  | nil => exact ⟨trivial, rfl⟩
+  | cons a rest ih =>
+    obtain ⟨i1, i2⟩ := ih (step exp s a)
+    refine ⟨⟨?_, i1⟩, i2⟩
+    intro w hw
+    exact XAct.noConfusion hw
+
+theorem exExp_wf : WF exExp := ⟨by decide, by decide⟩
+
+/-- mutual_exclusion_needed: the hypothesis of `no_steal_preserves` cannot be dropped.  There is a
+    reachable state satisfying `Inv` (writer 0 inside its store) whose successor under the
+    abandoned-lock rule violates it: two writers are in their critical section, the lock names
+    only one of them. -/
+theorem mutual_exclusion_needed :
+    ∃ (exp : Expected) (s : Sys) (w : Nat), WF exp ∧ Inv exp s ∧ s.lock ≠ none ∧
+      ¬ Inv exp (acquireWith .abandonedRecovery exp s w) ∧
+      (∃ w' d d' f f', w' ≠ w ∧ (acquireWith .abandonedRecovery exp s w).writers[w]? = some (.writing d f) ∧
+        (acquireWith .abandonedRecovery exp s w).writers[w']? = some (.writing d' f')) := by
+  refine ⟨exExp, runActs exExp (init 2) [.acquire 0], 1, exExp_wf,
+    runActs_inv exExp_wf _ _ (init_inv exExp 2), by decide, ?_, ⟨0, [], [], [], [], by decide, by decide, by decide⟩⟩
+  intro hinv
+  have h0 := (hinv.writing 0 [] [] (by decide)).1
+  exact absurd h0 (by decide)
+
+set_option maxRecDepth 100000 in
+/-- overlapping_writers_counterexample (the stored regression C09-m9, step by step).  Writer 0 holds
+    the lock and is slow; writer 1 is granted the lock as well (`steal`) and stores the module
+    completely: valid canonical marker, every file in full, a load is a HIT — a reader's digest
+    check has passed.  Then the slow writer goes on: its next Put truncates `files/a.proto`.
+    The entry that was complete is MODIFIED (the conclusion of `complete_is_stable` fails — its
+    hypothesis `Inv` is what the steal destroyed), the marker is still valid, a fresh load is a
+    digest mismatch, and the reader that had verified now reads an empty file.  Under the coded
+    rule the same request of writer 1 is a no-op and writer 0's store ends in a hit. -/
+theorem overlapping_writers_counterexample :
+    let held := xrun exExp (init 2) [.act (.acquire 0), .steal 1]
+    let done := xrun exExp held ((storeWith 1 (seqSchedule 1 [0, 1, 2])).map .act)
+    let torn := step exExp done (.truncate 0 0)
+    -- both in their critical section
+    held.writers[0]? = some (.writing [] []) ∧ held.writers[1]? = some (.writing [] []) ∧
+    -- writer 1 completed: what a reader verifies
+    done.writers[1]? = some (.finished true) ∧ markerOK done.entry = true ∧
+      done.entry.find "files/a.proto".toList = some "AAAA" ∧
+      (match load exExp done.entry with | .hit _ => true | _ => false) = true ∧
+    -- the slow writer's next primitive modifies the complete entry
+    torn.entry ≠ done.entry ∧ markerOK torn.entry = true ∧
+      torn.entry.find "files/a.proto".toList = some "" ∧
+      (match load exExp torn.entry with | .mismatch => true | _ => false) = true ∧
+    -- as coded: writer 1's request while the lock is held changes nothing
+    acquireWith .asCoded exExp (runActs exExp (init 2) [.acquire 0]) 1 = runActs exExp (init 2) [.acquire 0] := by
+  refine ⟨by decide, by decide, by decide, by decide, by decide, by decide, by decide, by decide, by decide, by decide, ?_⟩
+  exact timed_out_waiter_does_nothing exExp _ 1 0 (by decide)
+
+-- LockRespected is satisfiable by a history that DOES contain a steal (on a free lock), and fails
+-- for the counterexample's history
+example : LockRespected exExp (init 2) [.steal 0, .act (.truncate 0 0), .act (.fail 0), .steal 1] := by
+  refine ⟨?_, ?_, ?_, ?_, trivial⟩
+  · intro w _; decide
+  · intro w hw; exact XAct.noConfusion hw
+  · intro w hw; exact XAct.noConfusion hw
+  · intro w _; decide
+example : ¬ LockRespected exExp (init 2) [.act (.acquire 0), .steal 1] := by
+  intro h
+  exact absurd (h.2.1 1 rfl) (by decide)
+
 end BufProofs.C09
